@@ -248,6 +248,7 @@ def assemble(U, relpath, names, registry, g):
 
 
 def formula_world(U):
+    U.assume_ensures = False
     NP = Shim()
     ce = U.fn(F_UT, "cached_einsum", globs=dict(np=NP, EINSUM_PATH_CACHE={}), model=False, rewrite_comps=False)
     T = U.klass(F_PS, "Transform", globs=dict(np=NP), rewrite_comps=False)
